@@ -257,7 +257,9 @@ def run(chk):
     chk.rule = ('split tables: every (n,p) in the box, non-trivial = p does not divide n; layouts/accessors: random '
                 '(rank<=4, process grid, permutation, extents incl. extent==P and extent==P+1) on every rank, '
                 'non-trivial = some distributed axis split unevenly; distinct by (grid, order, extents)')
-    chk.proof_side(build=not getattr(chk, 'no_build', False), extra_props=('C02Extra',))
+    # Props/C02Gen.lean is about the block arithmetic REGENERATED from Layout.__init__: run the translator first
+    common.run_translator(chk, 'translate_pure.py', '--only', 'blocks')
+    chk.proof_side(build=not getattr(chk, 'no_build', False), extra_props=('C02Extra', 'C02Gen'))
     drv = common.LeanDriver('Idx.lean')
     try:
         tables(chk, drv)
